@@ -10,7 +10,8 @@ Rec == ndJsonDeserialize(IOEnv.TRACE)
 ToSet(s) == {s[i] : i \in 1..Len(s)}
 
 VARIABLE l
-Init == l = 1
+\* runs are independent: a rejected run is remembered (TLC register 1) and validation continues with the next one
+Init == l = 1 /\ TLCSet(1, <<>>)
 
 RunOk(e) ==
   LET scn == [cls |-> e.cls, dry |-> e.dry, outdir |-> e.outdir, gens |-> e.gens]
@@ -33,10 +34,14 @@ RunOk(e) ==
   /\ (e.allow => o.warnings = 0)
   /\ (e.cls = "warn" /\ ~e.allow => o.warnings > 0)        \* warnings alone never prevent generation (see started)
 
-Step == /\ l <= Len(Rec) /\ Rec[l].ev = "run" /\ RunOk(Rec[l]) /\ l' = l + 1
+Step == /\ l <= Len(Rec)
+        /\ IF Rec[l].ev = "run" /\ RunOk(Rec[l]) THEN TRUE ELSE TLCSet(1, Append(TLCGet(1), l))
+        /\ l' = l + 1
 Spec == Init /\ [][Step]_l
 
-Accepted == LET d == TLCGet("stats").diameter IN
-            IF d - 1 = Len(Rec) THEN PrintT(<<"ACCEPTED", Len(Rec)>>)
-            ELSE Print(<<"REJECTED", d, ToJson([event |-> Rec[d]])>>, FALSE)
+Accepted == LET d == TLCGet("stats").diameter  b == TLCGet(1) IN
+            IF d - 1 = Len(Rec) /\ b = <<>> THEN PrintT(<<"ACCEPTED", Len(Rec)>>)
+            ELSE /\ PrintT(<<"REJECTED-COUNT", Len(b), "of", Len(Rec), "consumed", d - 1>>)
+                 /\ \A i \in 1..(IF Len(b) < 12 THEN Len(b) ELSE 12) : PrintT(<<"REJECTED", b[i], ToJson([event |-> Rec[b[i]]])>>)
+                 /\ FALSE
 ====================================================================================================
